@@ -566,7 +566,13 @@ func (c *Ctx) execReturn(x *ast.ReturnStmt, s *State) []Exit {
 	if len(x.Results) > 0 {
 		var vals []Value
 		if len(x.Results) == 1 && len(rvs) > 1 {
-			vals = c.eval(x.Results[0], s).(TupleV)
+			vals = append(TupleV(nil), c.eval(x.Results[0], s).(TupleV)...)
+			// return f(): each component is converted to the declared result type (e.g. a pointer into an interface)
+			if tup, ok := c.typeOf(x.Results[0]).(*types.Tuple); ok && tup.Len() == len(rvs) {
+				for i := range vals {
+					vals[i] = c.convertTo(s, vals[i], tup.At(i).Type(), rvs[i].Type(), x.Results[0])
+				}
+			}
 		} else {
 			for i, r := range x.Results {
 				v := c.eval(r, s)
@@ -1331,6 +1337,10 @@ func (c *Ctx) execGo(x *ast.GoStmt, s *State) {
 	for _, a := range x.Call.Args {
 		c.eval(a, s)
 	}
+	if c.spawned == nil {
+		c.spawned = map[string]bool{}
+	}
+	c.spawned[calleeShortName(x.Call)] = true
 	c.eng.onGo(c, s, x)
 }
 
